@@ -90,7 +90,7 @@ func (ft *FT) translate() {
 			reqs = append(reqs, g)
 		}
 		if len(reqs) > 0 {
-			ft.oblige(&Obligation{Name: "vacuity:requires-satisfiable", Kind: "vacuity", Tags: ft.con.Tags, Guard: tTrue, Goal: tFalse, ExpectSat: true, Src: "conjunction of requires is satisfiable"})
+			ft.oblige(&Obligation{Name: "vacuity:requires-satisfiable", Kind: "vacuity", Tags: ft.allTags(), Guard: tTrue, Goal: tFalse, ExpectSat: true, Src: "conjunction of requires is satisfiable"})
 		}
 	}
 	// entry snapshot for old(): every region at its entry version
@@ -175,7 +175,7 @@ func (ft *FT) exit(b *Body) {
 	b.bindResults(env, fn.Signature, res)
 	ft.exitEnv = env
 	if len(ft.con.Ensures) > 0 {
-		ft.oblige(&Obligation{Name: "vacuity:exit-reachable", Kind: "vacuity", Tags: ft.con.Tags, Guard: exit, Goal: tFalse, ExpectSat: true, Src: "some return is reachable"})
+		ft.oblige(&Obligation{Name: "vacuity:exit-reachable", Kind: "vacuity", Tags: ft.allTags(), Guard: exit, Goal: tFalse, ExpectSat: true, Src: "some return is reachable"})
 	}
 	for i, c := range ft.con.Ensures {
 		name := "post"
@@ -212,7 +212,7 @@ func (ft *FT) exit(b *Body) {
 	}
 	// the engine must be able to refute `ensures false`
 	if len(ft.con.Ensures) > 0 {
-		ft.oblige(&Obligation{Name: "vacuity:ensures-false-refuted", Kind: "vacuity", Tags: ft.con.Tags, Guard: exit, Goal: tFalse, ExpectSat: true, Src: "ensures false must fail"})
+		ft.oblige(&Obligation{Name: "vacuity:ensures-false-refuted", Kind: "vacuity", Tags: ft.allTags(), Guard: exit, Goal: tFalse, ExpectSat: true, Src: "ensures false must fail"})
 	}
 }
 
